@@ -47,10 +47,28 @@ def check_image(tracer, model, counters):
     for ns, vol in (('iso', ecma.pvd), ('joliet', ecma.joliet)):
         if vol is None:
             continue
+    # relocated directories: physical location (in the relocation directory) -> the place of the
+    # CL placeholder, which is the path the edits used
+    reloc = {}
+    rr = dec.get('susp')
+    if rr is not None and getattr(rr, 'present', False) and rr.holder:
+        by_extent = {info.extent: p for p, info in ecma.pvd.dirs.items()}
+        for path, e in rr.entries.items():
+            if e.cl is not None and by_extent.get(e.cl) is not None:
+                reloc[by_extent[e.cl]] = path
+
+    def logical(ident):
+        for phys in sorted(reloc, key=len, reverse=True):
+            if isinstance(ident, str) and ident.startswith(phys + '/'):
+                return reloc[phys] + ident[len(phys):]
+        return ident
+
     def cid_for(kind, ident):
         ns = {'iso-data': 'iso', 'joliet-data': 'joliet', 'udf-data': 'udf', 'enh-data': 'iso'}.get(kind)
         if ns is None:
             return None
+        if ns == 'iso':
+            ident = logical(ident)
         node = model.ns[ns].get(ident)
         if node is None:
             return ('?', kind, ident)
